@@ -7,6 +7,8 @@ import sys
 import numpy as np
 import scipy
 import scipy.linalg
+import scipy.optimize
+import types
 import numqi
 from symnp import ir, scalars as S, arrays as A, facade
 from symnp.scalars import SC, BVS
@@ -184,7 +186,13 @@ def build_env(reg):
         rnd[nm] = g
     fac = facade.make_np_facade(linalg=linalg, random=rnd)
     sl = facade.Facade(scipy.linalg, {'expm': uf_kernel('expm', scipy.linalg.expm), 'sqrtm': uf_kernel('sqrtm', scipy.linalg.sqrtm)}, 'scipy.linalg')
-    sp = facade.Facade(scipy, {'linalg': sl}, 'scipy')
+
+    def opt_minimize_spy(fun, x0, *a, **k):
+        # scipy.optimize.minimize stand-in: deterministic, result is a function of the start points it was handed (all of them so far)
+        OPT_STARTS.append(x0)
+        return types.SimpleNamespace(fun=-float(len(OPT_STARTS)), x=np.concatenate([A.plain(v) if isinstance(v, A.SymArray) else np.asarray(v, dtype=object) for v in OPT_STARTS]))
+    so = facade.Facade(scipy.optimize, {'minimize': opt_minimize_spy}, 'scipy.optimize')
+    sp = facade.Facade(scipy, {'linalg': sl, 'optimize': so}, 'scipy')
     real_np = numqi.random._public.get_numpy_rng
     real_py = numqi.random._public.get_random_rng
     eg = {}
@@ -198,9 +206,34 @@ def build_env(reg):
             d['get_random_rng'] = lambda seed=None: reg.stream(seed)
         if getattr(mod, 'scipy', None) is scipy:
             d['scipy'] = sp
+        if name == 'numqi.optimize._internal':
+            d['get_model_flat_parameter'] = lambda model: np.zeros(3)
+            d['hf_model_wrapper'] = lambda model: (lambda *a, **k: None)
         if d:
             eg[name] = d
     return fac, eg
+
+
+OPT_STARTS = []
+_QUAD = []
+
+
+def _minimize(s, theta0):
+    """numqi.optimize.minimize(seed=): in the symbolic run the model plumbing and scipy.optimize.minimize are stubs (the result is the list of
+    start points handed to the optimiser); in the replay the real optimiser runs on a small quartic model"""
+    import torch
+    if not _QUAD:
+        class Quad(torch.nn.Module):
+            def __init__(self):
+                super().__init__()
+                self.theta = torch.nn.Parameter(torch.zeros(3, dtype=torch.float64))
+
+            def forward(self):
+                return torch.sum((self.theta - 0.3) ** 4) + torch.sum(torch.cos(3 * self.theta))
+        _QUAD.append(Quad)
+    del OPT_STARTS[:]
+    r = numqi.optimize.minimize(_QUAD[0](), theta0=theta0, num_repeat=2, tol=1e-10, print_every_round=0, seed=s)
+    return r.x, r.fun
 
 
 R = numqi.random
@@ -248,7 +281,13 @@ GENERATORS = [
     ('measure_quantum_vector', lambda s: numqi.sim.state.measure_quantum_vector(np.array([0.6, 0.0, 0.0, 0.8]), (0,), seed=s)),
     ('Circuit.measure', lambda s: _circ_measure(s)),
     ('get_purification', lambda s: numqi.utils.get_purification(np.array([[0.5, 0.0], [0.0, 0.5]]), dimR=2, seed=s)),
+    ('optimize.minimize(theta0=None)', lambda s: _minimize(s, None)),
+    ('optimize.minimize(theta0=normal)', lambda s: _minimize(s, 'normal')),
 ]
+# the same seed handed over as a NumPy integer (an element of np.arange(N), a value read from an array): still "an integer seed"
+GENERATORS += [(nm + ' [seed: np.int64]', (lambda s, f=f: f(np.int64(s)))) for nm, f in list(GENERATORS)
+               if nm in ('rand_haar_state', 'rand_density_matrix(bures)', 'rand_kraus_op', 'rand_SpF2(int_tuple)', 'rand_Clifford_group', 'rand_pauli',
+                         'measure_quantum_vector', 'Circuit.measure', 'get_purification', 'optimize.minimize(theta0=None)', 'optimize.minimize(theta0=normal)')]
 
 
 def _circ_measure(s):
